@@ -10,7 +10,7 @@ import traceback
 
 HERE = os.path.dirname(os.path.abspath(__file__))
 ROOT = os.path.dirname(HERE)
-EVIDENCE_DIR = os.path.join(ROOT, 'evidence')
+EVIDENCE_DIR = os.environ.get('VERIF_EVIDENCE_DIR') or os.path.join(ROOT, 'evidence')   # bin/seedcheck redirects it: committed evidence is from /repo only
 REPLAY_DIR = os.path.join(ROOT, 'replays')
 KNOWN_PATH = os.path.join(ROOT, 'KNOWN_FINDINGS.json')
 
